@@ -648,6 +648,13 @@ func nilTestEdge(e domEdge) bool {
 	switch cnd := e.ifi.Cond.(type) {
 	case *ssa.BinOp:
 		if isNilConst(cnd.X) || isNilConst(cnd.Y) {
+			other := cnd.X
+			if isNilConst(cnd.X) {
+				other = cnd.Y
+			}
+			if other.Type().String() == "error" {
+				return false // "err == nil" says nothing about the destination
+			}
 			return (cnd.Op == token.EQL && e.succ == 0) || (cnd.Op == token.NEQ && e.succ == 1)
 		}
 	case *ssa.Call:
